@@ -18,8 +18,13 @@ AllowedFinal(s) == IF P.instk[s] > 0 THEN {"NOT_STARTED", "SUCCEEDED", "CANCELED
                    ELSE IF s \in Racy THEN {Ideal.st[s], "CANCELED", "NOT_STARTED"}
                    ELSE IF Ref.st[s] = "ABSENT" THEN {"NOT_STARTED"}     \* a synthetic child the reference run never created
                    ELSE {Ref.st[s]}
+(* a stage the reference run created (a builder's before / after child) exists, unless its parent never got that far *)
+ChildExists(s) == \/ s \in DOMAIN st \/ Ref.st[s] = "ABSENT" \/ P.parent[s] = "" \/ P.parent[s] \in Racy
+                  \/ P.parent[s] \notin DOMAIN st
+                  \/ st[P.parent[s]].status \in {"NOT_STARTED", "CANCELED", "SKIPPED", "TERMINAL", "STOPPED"}
 OutcomeEq == /\ wf.status = Ref.wf
              /\ \A s \in DOMAIN st : st[s].status \in AllowedFinal(s)
+             /\ \A s \in Stages : ChildExists(s)
 
 RECURSIVE SumExcess(_)
 SumExcess(T) == IF T = {} THEN 0
